@@ -740,6 +740,7 @@ static void run_lock_free(uint64_t seed)
             mu.lock();
           if (!got)
             continue;
+          vf::EventLog::now();  // logical progress for the watchdog (relaxed: adds no happens-before edge)
           if (inside.fetch_add(1, std::memory_order_relaxed) != 0)
             both.fetch_add(1, std::memory_order_relaxed);
           ++plain_counter;
